@@ -133,6 +133,12 @@ pub fn worker(ctx: &WorkerCtx) -> WorkerResult {
         fault::worker_dircheck(ctx, &res);
         return res.into_inner();
     }
+    if ctx.id == "C03" {
+        let r = history::worker(ctx);
+        let res = std::cell::RefCell::new(r);
+        batch::worker_c03_conc(ctx, &res);
+        return res.into_inner();
+    }
     if HISTORY_IDS.contains(&ctx.id.as_str()) {
         return history::worker(ctx);
     }
